@@ -44,7 +44,7 @@ def run(ctx):
         texe = vlib.build_engine("xsched", "tsan")
         tenv = dict(env)
         tenv["TSAN_OPTIONS"] = "exitcode=97 halt_on_error=0 report_signal_unsafe=0"
-        reps = 3 if tier == "quick" else 10
+        reps = 10 if tier == "quick" else 40
         for s in SCEN:
             for r in range(reps):
                 p = subprocess.run([texe, "--scenario", s, "--threads", "8", "--free-run", "6"], stdout=subprocess.PIPE,
